@@ -102,6 +102,7 @@ func main() {
 		cur.Store(int64(i))
 		startCPU.Store(int64(cpuNow()))
 		one(i, in, devnull)
+		fmt.Fprintf(journal, "%d:cpu-ms %d\n", i, cpuSince(startCPU.Load()))
 	}
 	fmt.Fprintf(journal, "done\n")
 }
@@ -129,8 +130,11 @@ func one(i int, in input, devnull *os.File) {
 		task.WithColor(i%2 == 0),
 	)
 	if err := e.Setup(); err != nil {
-		_ = err.Error()
-		note(i, "setup-error")
+		msg := err.Error()
+		if len(msg) > 70 {
+			msg = msg[:70]
+		}
+		note(i, "setup-error "+strconv.Quote(msg))
 		return
 	}
 	note(i, "list")
@@ -190,3 +194,5 @@ func one(i int, in input, devnull *os.File) {
 	}
 	note(i, "ok")
 }
+
+func cpuSince(start int64) int64 { return (int64(cpuNow()) - start) / 1e6 }
